@@ -28,6 +28,8 @@ func RunC15(c *Ctx, r *Report) {
 	c.akaRules(r, prefix, "stability")
 	c.akaPaddingRule(r, prefix)
 	c.akaEmitsAllRule(r, prefix+"aka.emits-every-attribute")
+	c.akaKeepsAllRule(r, prefix+"aka.decode-keeps-every-attribute")
+	c.akaValueIdentityRule(r, prefix)
 	r.Func(c.FuncName(fn))
 	r.Func(c.FuncName(initMAC))
 	f := c.NewFA(fn)
@@ -159,4 +161,43 @@ func RunC15(c *Ctx, r *Report) {
 	// Not checked: reserved octets of AT_RAND/AT_AUTN/AT_MAC and padding octets are read and
 	// dropped by the decoder; a well-formed sender sets them to zero (RFC 4187), which is what the
 	// re-serialisation emits, so this is inside the property's domain only for malformed packets.
+}
+
+
+// akaKeepsAllRule: the receiver computes the code over a re-serialisation of what it decoded, so the decoder
+// must keep every attribute it consumes: on every way round the attribute loop the attribute just read is
+// entered into the attribute map. A path that goes on to the next attribute without storing the current one
+// (an attribute that is "silently ignored") makes the recomputed code differ from the transmitted one.
+func (c *Ctx) akaKeepsAllRule(r *Report, rule string) {
+	r.Rule(rule, "EAP-AKA' decoder: every path from the head of the attribute loop back to it passes through the store of the attribute just read into the attribute map (no attribute is consumed and dropped)", 1)
+	um := c.Method("eap", "EapAkaPrime", "Unmarshal")
+	if um == nil {
+		r.undecided(rule, "eap.(*EapAkaPrime).Unmarshal", "-", "anchor does not resolve")
+		return
+	}
+	loops := naturalLoops(um)
+	var li *loopInfo
+	var target *ssa.BasicBlock
+	for _, l := range loops {
+		for _, b := range sortedBlocks(l.body) {
+			for _, ins := range b.Instrs {
+				if _, ok := ins.(*ssa.MapUpdate); ok && (li == nil || len(l.body) < len(li.body)) {
+					li, target = l, b
+				}
+			}
+		}
+	}
+	if li == nil {
+		r.undecided(rule, c.FuncName(um), c.Pos(um.Pos()), "no attribute loop with a map update found")
+		return
+	}
+	for _, bk := range li.backs {
+		key := fmt.Sprintf("%s: back edge from block %d", c.FuncName(um), bk.Index)
+		pos := c.InstrPos(bk.Instrs[len(bk.Instrs)-1])
+		if target == bk || target.Dominates(bk) {
+			r.ok(rule, key, pos, "dominated by the map update at "+c.InstrPos(target.Instrs[0]), true)
+		} else {
+			r.bad(rule, key, pos, "the loop can go on to the next attribute without having stored the current one (map update at "+c.InstrPos(target.Instrs[0])+" is not on this path)")
+		}
+	}
 }
